@@ -400,6 +400,12 @@ func (vc *FnVC) havocExpr(cfr *frame, st, pre *state, m Expr, vars map[string]va
 			vc.havocAll(st)
 			return
 		}
+		if gt, ok := vc.eng.db.GhostVars[x.Name]; ok {
+			h := "G:ghost." + x.Name
+			vc.eng.regHeap(h, heapDesc{kind: "raw", raw: ghostSort(gt)})
+			vc.havocHeap(st, h)
+			return
+		}
 		// global variable
 		if c.pkg != nil {
 			if v, ok := c.pkg.Scope().Lookup(x.Name).(*types.Var); ok {
